@@ -727,6 +727,7 @@ def model_quantize(model,
 
   for layer in layers:
     layer_config = layer["config"]
+    q_name = None  # set by the branches below that rename the layer
 
     # Dense becomes QDense, Conv1D becomes QConv1D etc
     # Activation converts activation functions.
